@@ -40,6 +40,9 @@ type DefaultMetricLogWriter struct {
 
 	timezoneOffsetSec int64
 	latestOpSec       int64
+	// curFileIndexed and curFileIdxSec describe the last entry written to the index of the current file.
+	curFileIndexed bool
+	curFileIdxSec  int64
 
 	curMetricFile    *os.File
 	curMetricIdxFile *os.File
@@ -73,7 +76,17 @@ func (d *DefaultMetricLogWriter) Write(ts uint64, items []*base.MetricItem) erro
 		// ignore
 		return nil
 	}
-	if timeSec > d.latestOpSec {
+	// Roll to the file of the new day first, so that the index entry of this second goes to the
+	// index of the file that will hold its lines.
+	if timeSec > d.latestOpSec && d.isNewDay(d.latestOpSec, timeSec) {
+		if err := d.rollToNextFile(ts); err != nil {
+			return errors.Wrap(err, "failed to roll the metric log")
+		}
+	}
+	// Every file needs an index entry for each second it holds lines of: also for the second the
+	// writer was created in and for a second that continues in a new file after a size-triggered
+	// roll. Without the entry the searcher cannot find these lines.
+	if !d.curFileIndexed || timeSec != d.curFileIdxSec {
 		pos, err := util.FilePosition(d.curMetricFile)
 		if err != nil {
 			return errors.Wrap(err, "cannot get current pos of the metric file")
@@ -81,11 +94,8 @@ func (d *DefaultMetricLogWriter) Write(ts uint64, items []*base.MetricItem) erro
 		if err = d.writeIndex(timeSec, pos); err != nil {
 			return errors.Wrap(err, "cannot write metric idx file")
 		}
-		if d.isNewDay(d.latestOpSec, timeSec) {
-			if err = d.rollToNextFile(ts); err != nil {
-				return errors.Wrap(err, "failed to roll the metric log")
-			}
-		}
+		d.curFileIndexed = true
+		d.curFileIdxSec = timeSec
 	}
 	// Write and flush
 	if err := d.writeItemsAndFlush(items); err != nil {
@@ -258,6 +268,7 @@ func (d *DefaultMetricLogWriter) closeCurAndNewFile(filename string) error {
 
 	d.curMetricIdxFile = mif
 	d.idxOut = bufio.NewWriter(mif)
+	d.curFileIndexed = false
 
 	return nil
 }
